@@ -133,6 +133,116 @@ def card_differs(shape, ri, a, b, a2, b2) -> bool:
     return True
 
 
+def inplace_rename(shape, pos, newname, code) -> bool:
+    """Compare/hash a model, then rename one feature *in place* and compare with an independently
+    rebuilt, reversed copy of the new state (a cached key would be stale)."""
+    n = R.n_features(shape)
+    names = [POOL[i] for i in range(n)]
+    cards = uniform_cards(shape)
+    trees = default_ctcs(names)
+    m1 = R.build(shape, cards, names=names, ctcs=[R.ctc('c%d' % i, t) for i, t in enumerate(trees)])
+    rels = R.relations_of(shape)
+    rc = [math.factorial(len(cs)) - 1 for _, cs in rels]
+    m2 = build_perm(shape, cards, names, rc, 1, trees, 5)
+    if not (m1 == m2):
+        return False
+    h = hash(m1) if code else 0
+    feats = [m1.root]
+
+    def walk(f):
+        for r in f.relations:
+            for c in r.children:
+                feats.append(c)
+                walk(c)
+    walk(m1.root)
+    feats[pos].name = newname
+    names3 = list(names)
+    names3[pos] = newname
+    m3 = build_perm(shape, cards, names3, rc, 1, trees, 5)
+    if not (m1 == m3) or not (m3 == m1) or (m1 == m2) or (m2 == m1):
+        return False
+    return True
+
+
+def inplace_card(shape, ri, a, b, a2, b2) -> bool:
+    n = R.n_features(shape)
+    names = [POOL[i] for i in range(n)]
+    cards = uniform_cards(shape)
+    cards[ri] = (a, b)
+    m1 = R.build(shape, cards, names=names)
+    rels = R.relations_of(shape)
+    rc = [math.factorial(len(cs)) - 1 for _, cs in rels]
+    m2 = build_perm(shape, cards, names, rc, 1, [], 0)
+    if not (m1 == m2) or not (m2 == m1):
+        return False
+    r = _walk_rel(m1)[ri]
+    r.card_min, r.card_max = a2, b2
+    cards3 = list(cards)
+    cards3[ri] = (a2, b2)
+    m3 = build_perm(shape, cards3, names, rc, 1, [], 0)
+    same = (a == a2 and b == b2)
+    if not (m1 == m3) or not (m3 == m1):
+        return False
+    if (m1 == m2) != same:
+        return False
+    return True
+
+
+def replay_inplace(shape, pos, newname, ri, a2, b2):
+    """native: compare + hash, edit in place (rename, cardinality, add_child), compare with a rebuilt copy."""
+    shape = totuple(shape)
+    out = []
+    try:
+        if not inplace_rename(shape, pos, newname, 1):
+            out.append('after an in-place rename of feature %d to %r the model differs from its rebuilt, order-permuted copy (or still equals the old one); shape %s' % (pos, newname, R.shape_str(shape)))
+        k = len(R.relations_of(shape)[ri][1])
+        if not inplace_card(shape, ri, 1, k if k > 1 else 1, a2, b2):
+            out.append('after an in-place cardinality change of R%d to (%d,%d) the model differs from its rebuilt copy; shape %s' % (ri, a2, b2, R.shape_str(shape)))
+        # hash after in-place edit
+        n = R.n_features(shape)
+        names = [POOL[i] for i in range(n)]
+        cards = uniform_cards(shape)
+        m1 = R.build(shape, cards, names=names)
+        hash(m1)
+        for r in _walk_rel(m1):
+            hash(r)
+        r = _walk_rel(m1)[ri]
+        r.card_min, r.card_max = a2, b2
+        cards3 = list(cards)
+        cards3[ri] = (a2, b2)
+        m3 = R.build(shape, cards3, names=names)
+        if m1 == m3 and hash(m1) != hash(m3):
+            out.append('equal models with different hashes after an in-place cardinality change')
+        if r == _walk_rel(m3)[ri] and hash(r) != hash(_walk_rel(m3)[ri]):
+            out.append('equal relations with different hashes after an in-place cardinality change')
+    except Exception as exc:
+        out.append('%s: %s' % (type(exc).__name__, exc))
+    return out
+
+
+def batch_inplace(max_n, lo, hi, seed):
+    rnd = random.Random(seed)
+    res = {'instances': 0, 'nontrivial': 0, 'violations': [], 'native_runs': 0}
+    for shape in [s for s in R.shapes(max_n) if R.n_features(s) >= 2][lo:hi]:
+        n = R.n_features(shape)
+        rels = R.relations_of(shape)
+        for pos in range(n):
+            ri = rnd.randrange(len(rels))
+            k = len(rels[ri][1])
+            a2 = rnd.randint(0, k)
+            args = [shape, pos, rnd.choice(['Zq', 'aB' if pos != 1 else 'zz', 'Q0']), ri, a2, rnd.randint(max(a2, 1), k)]
+            res['instances'] += 1
+            res['native_runs'] += 1
+            res['nontrivial'] += 1
+            bad = replay_inplace(*args)
+            if bad:
+                res['violations'].append({'label': 'inplace-edit', 'detail': bad[0], 'replay_func': 'replay_inplace', 'replay_args': args})
+                if len(res['violations']) >= 4:
+                    return res
+            res['sample'] = {'shape': R.shape_str(shape), 'rename': [pos, args[2]], 'card': [ri, a2, args[5]]}
+    return res
+
+
 # -- structural edits (enumerated natively: they have no symbolic payload) -----------------------
 
 
@@ -359,8 +469,19 @@ def conditions(tier, seed):
                           body='P.rename_differs(SHAPE_%d, %d, name)' % (si, pos), timeout=T,
                           aspect='rename => unequal', sample={'shape': R.shape_str(shape), 'symbolic': 'new name of feature %d' % pos},
                           validate=[('zz',), ('ab',), ('AB',)]))
+        conds.append(Cond(name='c20_iren_%d' % si, imports=imp, params='name: str',
+                          pre=['1 <= len(name) <= %d' % L, 'all(len(name) != len(o) or name != o for o in %r)' % (POOL[:n],),
+                               "all(c not in name for c in ('[', ']', chr(34), '.', chr(39)))"],
+                          body='P.inplace_rename(SHAPE_%d, %d, name, 0)' % (si, pos), timeout=T,
+                          aspect='compare, rename in place, compare with rebuilt copy', sample={'shape': R.shape_str(shape), 'symbolic': 'new name of feature %d' % pos},
+                          validate=[('zz',), ('AB',)]))
         ri = (si + seed) % len(rels)
         k = len(rels[ri][1])
+        conds.append(Cond(name='c20_icard_%d' % si, imports=imp, params='a: int, b: int, a2: int, b2: int',
+                          pre=['0 <= a <= b <= %d' % k, '0 <= a2 <= b2 <= %d' % k],
+                          body='P.inplace_card(SHAPE_%d, %d, a, b, a2, b2)' % (si, ri), timeout=T,
+                          aspect='compare, change one cardinality in place, compare with rebuilt copy', sample={'shape': R.shape_str(shape), 'symbolic': 'old and new cardinality of R%d' % ri},
+                          validate=[(0, 1, 1, 1), (1, 1, 1, 1)]))
         conds.append(Cond(name='c20_card_%d' % si, imports=imp, params='a: int, b: int, a2: int, b2: int',
                           pre=['0 <= a <= b <= %d' % k, '0 <= a2 <= b2 <= %d' % k],
                           body='P.card_differs(SHAPE_%d, %d, a, b, a2, b2)' % (si, ri), timeout=T,
@@ -374,6 +495,7 @@ def batches(tier, seed):
     total = len(R.shapes(N))
     step = total // 12 + 1
     b = [('batch_edits', [N, lo, lo + step]) for lo in range(0, total, step)]
+    b += [('batch_inplace', [N, lo, lo + step, seed + lo]) for lo in range(0, total, step)]
     b += [('batch_perm_native', [N, seed * 31 + i, 150 if tier == 'quick' else 1500]) for i in range(4)]
     return b
 
